@@ -361,6 +361,104 @@ class TileImage(e2.Case):
                     what="study tile %s/%s not stored although it holds a defined image pixel" % (mode, fmt))
 
 
+class ConcreteRange:
+    """Replacement for `range` that concretises symbolic bounds (one path per value): the loop then runs in full."""
+
+    def __call__(self, a, b=None, step=None):
+        if b is None:
+            a, b = 0, a
+        c = symx.ctx()
+        a2 = c.concretize_int(I(a)) if symx.is_sym(a) else a
+        b2 = c.concretize_int(I(b)) if symx.is_sym(b) else b
+        return range(a2, b2)
+
+
+class FullLoop(e2.Case):
+    """The WHOLE tile loop of tile_image is executed (no one-iteration summary) for small images: state carried from
+    one iteration to the next (the reused buffer, any bookkeeping variable) is therefore in scope."""
+
+    def __init__(self, mode, fmt, sub):
+        self.mode, self.fmt, self.sub = mode, fmt, sub
+        self.name = "full-loop-%s-%s%s" % (mode, fmt, "-sub" if sub else "")
+        self.max_paths = 4000
+        self.budget_s = 270
+        self.conform_paths = 2
+
+    def run(self, w):
+        dt, ch = COMBOS[(self.mode, self.fmt)]
+        top = 560
+        W = w.int("W", 1, top)
+        H = w.int("H", 1, top)
+        subr = None
+        if self.sub:
+            sx, sy = w.int("sx", 0), w.int("sy", 0)
+            sw, sh = w.int("sw", 1), w.int("sh", 1)
+            w.assume(sx + sw <= W)
+            w.assume(sy + sh <= H)
+            subr = (sx, sy, sw, sh)
+        fs = symfs.SymFS()
+        saved_masked = Image.is_completely_masked
+        if w.symbolic:
+            # the image has no undefined pixel, so every populated tile holds a defined pixel (C15): not masked
+            Image.is_completely_masked = lambda self_img: False
+        try:
+            with study_patches(w, ConcreteRange() if w.symbolic else None), w.patched(ti), fs.installed(w):
+                t = StudyTiling(W, H)
+                iw, ih = W, H
+                if subr:
+                    t = t.compute_for_subimage(*subr)
+                    iw, ih = subr[2], subr[3]
+                arr = w.array("img", (ih, iw) + ((ch,) if ch else ()), dt, nonan=True, lo=1 if dt != "float32" else None)
+                image = Image.from_array(arr, default_format=self.fmt if self.fmt in ("fits", "npy") else None)
+                pio = PyramidIO("/s", default_format=self.fmt)
+                t.tile_image(image, pio)
+                nt = 2 ** t._tile_levels
+                tx = int(w.int("tx", 0, nt - 1))
+                ty = int(w.int("ty", 0, nt - 1))
+                path = pio.tile_path(Pos(t._tile_levels, tx, ty), makedirs=False)
+                stored = fs.files[path]["arr"] if path in fs.files else None
+        finally:
+            Image.is_completely_masked = saved_masked
+        out = dict(t=t, arr=arr, stored=stored, itx=tx, ity=ty, nfiles=len(fs.files))
+        if not w.symbolic:
+            out["ref"] = _ref_tile(arr, t, tx, ty, self.mode, self.fmt)
+        return out
+
+    def same_path(self, so, ro):
+        return (so["stored"] is None) == (ro["stored"] is None)
+
+    def claims(self, w, o):
+        mode, fmt = self.mode, self.fmt
+        och = {"RGB": 4, "RGBA": 4, "F16x3": 3}.get(mode, 0)
+        t, arr = o["t"], o["arr"]
+        bu = fmt == "fits"
+        r = w.int("r", 0, 255)
+        c = w.int("c", 0, 255)
+        idx = (r, c)
+        chv = None
+        if och:
+            chv = w.int("ch", 0, och - 1)
+            idx = (r, c, chv)
+        R = (255 - I(r)) if bu else I(r)
+        ggx = o["itx"] * 256 + I(c) - I(t._img_gx0)
+        ggy = o["ity"] * 256 + R - I(t._img_gy0)
+        inimg = z3.And(ggx >= 0, ggx < I(t._width), ggy >= 0, ggy < I(t._height))
+        und = symnp.nan_elem() if mode in FLOATS else z3.IntVal(0)
+        if mode == "RGB":
+            inside = symnp.elem_ite(I(chv) == 3, z3.IntVal(255), arr.get((ggy, ggx, z3.If(I(chv) == 3, 0, I(chv)))))
+        elif och:
+            inside = arr.get((ggy, ggx, I(chv)))
+        else:
+            inside = arr.get((ggy, ggx))
+        want = symnp.elem_ite(inimg, inside, und)
+        if o["stored"] is not None:
+            w.claim_eq("tile-pixel", o["stored"].get(idx), want, probe=("stored", idx), ref=("ref", idx),
+                       what="study tile %s/%s (whole loop executed): stored pixel != image pixel at its display slot / undefined outside the image" % (mode, fmt))
+        else:
+            w.claim("unwritten-tile-holds-no-image-pixel", z3.Not(inimg), probe=lambda ro, val: ro["stored"] is not None or _all_undef(ro["ref"], mode),
+                    what="study tile %s/%s not written although an image pixel falls into it" % (mode, fmt))
+
+
 def self_alpha_zero(arr, ggy, ggx, inimg):
     return z3.Or(z3.Not(inimg), arr.get((ggy, ggx, z3.IntVal(3))) == 0)
 
@@ -400,13 +498,23 @@ def _ref_tile(arr, t, itx, ity, mode, fmt):
     return tile[::-1] if fmt == "fits" else tile
 
 
+SUMMARY_OK = True
+
+
 def cases(tier):
+    import toasty.study as _ts
+    if symx.loop_carried_names(_ts.StudyTiling.generate_populated_positions) or symx.loop_carried_names(_ts.StudyTiling.tile_image):
+        # one-iteration summaries would be unsound: geometry (no loop) and whole-loop cases only
+        return [Geometry(tier, False), Geometry(tier, True), FullLoop("F32", "fits", False), FullLoop("RGB", "png", False), FullLoop("F32", "npy", True)]
     out = [Geometry(tier, False), Geometry(tier, True),
            Positions(tier, False, True), Positions(tier, False, False), Positions(tier, True, True), Positions(tier, True, False)]
     for (m, f) in COMBOS:
         out.append(TileImage(tier, m, f, False))
     out.append(TileImage(tier, "F32", "fits", True))
     out.append(TileImage(tier, "RGB", "png", True))
+    out.append(FullLoop("F32", "fits", False))
+    out.append(FullLoop("RGB", "png", False))
+    out.append(FullLoop("F32", "npy", True))
     return out
 
 
@@ -418,10 +526,12 @@ def check(run):
     lc = {}
     for f in (ts.StudyTiling.generate_populated_positions, ts.StudyTiling.tile_image):
         lc.update({"%s:%d" % (f.__name__, k): v for k, v in symx.loop_carried_names(f).items()})
+    global SUMMARY_OK
+    SUMMARY_OK = not lc
     if lc:
-        run.error("loop-independence", "tile loops carry local state between iterations (one-iteration summary unsound): %r" % lc)
-        return
-    run.ob("loop-independence", "confirmed", "AST", "no local name is read before assignment in a later iteration of the tile loops (generate_populated_positions, tile_image)")
+        run.ob("loop-independence", "inconclusive", "AST", "tile loops carry local state between iterations (%r): the one-iteration summaries are unsound and skipped; only the whole-loop cases (images <= 560 px) decide" % lc)
+    else:
+        run.ob("loop-independence", "confirmed", "AST", "no local name is read before assignment in a later iteration of the tile loops (generate_populated_positions, tile_image)")
     run.bound(width_height="symbolic, 1 .. 2^%d each (next_highest_power_of_2 loop unrolled by the path explorer; larger sizes outside)" % MAXLOG[run.tier],
               subimage="symbolic offset and size inside the image", pixel="symbolic image pixel / tile slot / channel", tile="arbitrary populated tile (symbolic indices) or the witness tile of the pixel",
               modes_formats=", ".join("%s/%s" % k for k in COMBOS))
